@@ -72,6 +72,9 @@ class Mk:
         self.requires = []        # symbolic world: SymBool list;   native world: python bools
 
     def real(self, name):
+        import re
+        if re.fullmatch(r"r\d+", name):
+            raise EngineFault(f"input name {name!r} collides with the names of the constant-root symbols (r2 = sqrt 2, ...)")
         self.names.append(name)
         if self.W.symbolic:
             return Sym.var(name)
@@ -809,7 +812,7 @@ def pick_path(records, env):
 
 # ------------------------------------------------------------------ refutation handling
 
-def candidate_envs(contract, cfg, lst, mk0, names, rng, n_random=40):
+def candidate_envs(contract, cfg, lst, mk0, names, rng, n_random=150):
     """environments (name -> float) that may violate the clause: solver models first, then random points"""
     by_id = {T.by_name[n]: n for n in names if n in T.by_name}
     for cl, r in lst:
